@@ -27,6 +27,10 @@ type faultPlan struct {
 	trace  []string     // kind of every call
 	active bool
 	mt     *mtPlan // multi-threaded update: faults addressed per worker
+	// real failures: at these call indices the travellers table is closed underneath the engine just
+	// before the call, so that the real goleveldb write/read path fails (nothing is injected)
+	closeAt map[int]bool
+	closer  func()
 }
 
 // mtPlan addresses a fault as (worker, i): the i-th store call made by the update worker that owns
@@ -119,6 +123,10 @@ func (p *faultPlan) hitp(kind string, prefix string) bool {
 	i := p.n
 	p.n++
 	p.trace = append(p.trace, kind)
+	if p.closeAt[i] && p.closer != nil {
+		p.closer()
+		p.closer = nil
+	}
 	return p.fail[i]
 }
 
@@ -312,12 +320,18 @@ type c14Result struct {
 // runOp runs one operation on a fresh copy of the image with the given faults and returns what it
 // reported and the state a clean reopen then finds.
 func runOp(w *c14World, scratch string, op string, fail map[int]bool, rng *Rng) (res c14Result) {
+	return runOpClose(w, scratch, op, fail, nil, rng)
+}
+
+// runOpClose: like runOp; at the call indices in closeAt the travellers table is closed underneath
+func runOpClose(w *c14World, scratch string, op string, fail map[int]bool, closeAt map[int]bool, rng *Rng) (res c14Result) {
 	os.RemoveAll(scratch)
 	if err := copyTree(w.dir, scratch); err != nil {
 		panic(err)
 	}
 	ldb := db.NewLevelDB(scratch)
-	plan := &faultPlan{fail: fail}
+	plan := &faultPlan{fail: fail, closeAt: closeAt}
+	plan.closer = func() { ldb.CloseTable("travellers") }
 	fdb := &faultDB{ldb, plan}
 	eng := flap.NewEngine(fdb, 0, scratch)
 	func() {
@@ -489,7 +503,7 @@ func runC14(o *Out, rng *Rng, tier string, replay string) {
 	} else if tier == "search" {
 		nWorlds, pairs = 20, 40
 	}
-	o.sum.Rule = "case = one operation (check-in, Make current and stale, daily update, administrator Save) on a copy of a prepared database image with storage faults injected through a db.Database wrapper at EVERY single call position of its fault-free trace (get, put, snapshot, batch creation, iterator creation, iteration error, batch put, flush) and at sampled pairs of positions; in addition multi-threaded daily updates (2, 4, 8, 16 workers) with a fault at every call position of every worker, addressed per worker goroutine, healthy workers held at their final flush until the fault has been injected so that they report after the failing one; the reported result is compared with the model's skeleton under the same schedule, and after a clean reopen the stored state must equal the fault-free outcome whenever success was reported; non-trivial = a fault position at which the operation must (and does) report an error; distinct by (world, operation, positions)"
+	o.sum.Rule = "case = one operation (check-in, Make current and stale, daily update, administrator Save) on a copy of a prepared database image with storage faults injected through a db.Database wrapper at EVERY single call position of its fault-free trace (get, put, snapshot, batch creation, iterator creation, iteration error, batch put, flush) and at sampled pairs of positions; at every write position of the travellers table also a REAL failure (the table is closed underneath so that the wrapped goleveldb call itself fails); in addition multi-threaded daily updates (2, 4, 8, 16 workers) with a fault at every call position of every worker, addressed per worker goroutine, healthy workers held at their final flush until the fault has been injected so that they report after the failing one; the reported result is compared with the model's skeleton under the same schedule, and after a clean reopen the stored state must equal the fault-free outcome whenever success was reported; non-trivial = a fault position at which the operation must (and does) report an error; distinct by (world, operation, positions)"
 	wd := filepath.Join(o.dir, "worlds")
 	for wi := 0; wi < nWorlds; wi++ {
 		r := rng.Fork()
@@ -579,6 +593,24 @@ func runC14(o *Out, rng *Rng, tier string, replay string) {
 			}
 			for f := 0; f < n; f++ {
 				try([]int{f})
+			}
+			// real storage failures at every write position of the travellers table (put, flush): the table is
+			// closed underneath, the wrapped goleveldb call itself fails; the skeleton says "that call failed"
+			if op == "submit" || op == "make" || op == "update" {
+				for f := 0; f < n; f++ {
+					if base.trace[f] != "put" && base.trace[f] != "flush" {
+						continue
+					}
+					res := runOpClose(w, scratch, op, nil, map[int]bool{f: true}, r)
+					rep := map[string]interface{}{"world": wi, "op": op, "table_closed_before_call": f, "kind": base.trace[f], "reported_error": fmt.Sprint(res.err)}
+					o.AddCase(mk([]int{f}, res.err == nil), res.err != nil, rep)
+					o.Count("real_failure_" + op)
+					if res.pan {
+						o.Fail(MonitorFailure{Property: "C14", Signature: "panic-under-storage-fault", What: fmt.Sprintf("%s panicked when the travellers table failed for real at call %d (%s): %v", op, f, base.trace[f], res.err), Replay: rep})
+					} else if res.err == nil {
+						o.Fail(MonitorFailure{Property: "C14", Signature: "real-write-failure-reported-as-success", What: fmt.Sprintf("%s returned success although the store (travellers table closed underneath, goleveldb error) could not perform call %d (%s); stored state equals the fault-free outcome: %v", op, f, base.trace[f], res.digest == base.digest), Replay: rep})
+					}
+				}
 			}
 			for k := 0; k < pairs && n >= 2; k++ {
 				a, b := r.Intn(n), r.Intn(n)
